@@ -35,9 +35,11 @@ func init() {
 		// analysis/token/dict.go, camelcase_parser.go, cjk_bigram.go: increments of the emitted tokens
 		spec{area: "Analysis", coq: "dict_sub_incr", file: "analysis/token/dict.go", kind: "fieldlit", a: "Token", b: "PositionIncr"},
 		spec{area: "Analysis", coq: "camel_tok_incr", file: "analysis/token/camelcase_parser.go", kind: "fieldlit", a: "Token", b: "PositionIncr"},
+		// analysis/char/asciifolding.go: capacity factor of the output buffer
+		spec{area: "Analysis", coq: "ascii_fold_max_expansion", file: "analysis/char/asciifolding.go", kind: "const", a: "maxRuneExpansion"},
 		spec{area: "Analysis", coq: "bigram_piece_incr", file: "analysis/lang/cjk/cjk_bigram.go", kind: "fieldlit", a: "Token", b: "PositionIncr"},
 	)
-	sections = append(sections, analysisTokenTypes, analysisKanaTables)
+	sections = append(sections, analysisTokenTypes, analysisKanaTables, analysisASCIIFoldTable)
 }
 
 // analysisTokenTypes evaluates the iota enumeration of analysis.TokenType (analysis/type.go).
@@ -132,6 +134,140 @@ func analysisKanaTables(root string) (string, string, []string) {
 			continue
 		}
 		fmt.Fprintf(&sb, "Definition %s : list Z := [%s]. (* analysis/lang/cjk/cjk_width.go: var %s *)\n", it.coq, strings.Join(vals, "; "), it.goName)
+	}
+	return area, sb.String(), errs
+}
+
+// analysisASCIIFoldTable walks the switch of foldToASCII (analysis/char/asciifolding.go) and emits,
+// for every case value, the amount the output slice is extended by and the runes written:
+// ascii_fold_table : list (Z * (Z * list Z)).  `fallthrough` clauses share the next body.
+func analysisASCIIFoldTable(root string) (string, string, []string) {
+	const area = "Analysis"
+	const rel = "analysis/char/asciifolding.go"
+	fi, err := load(root, rel)
+	if err != nil {
+		return area, "", []string{err.Error()}
+	}
+	fd := findFunc(fi, "foldToASCII")
+	if fd == nil {
+		return area, "", []string{"ascii_fold_table: func foldToASCII not found"}
+	}
+	var sw *ast.SwitchStmt
+	ast.Inspect(fd, func(n ast.Node) bool {
+		if s, ok := n.(*ast.SwitchStmt); ok && sw == nil {
+			sw = s
+		}
+		return true
+	})
+	if sw == nil {
+		return area, "", []string{"ascii_fold_table: no switch in foldToASCII"}
+	}
+	type entry struct {
+		runes  []string
+		extend string
+		writes []string
+	}
+	var entries []entry
+	var pending []string // case values of fallthrough clauses waiting for a body
+	var errs []string
+	sawDefault := false
+	for _, st := range sw.Body.List {
+		cc, ok := st.(*ast.CaseClause)
+		if !ok {
+			continue
+		}
+		if cc.List == nil { // default: output[outputPos] = c
+			sawDefault = true
+			if len(cc.Body) != 2 {
+				errs = append(errs, "ascii_fold_table: default clause is not `output[outputPos] = c; outputPos++`")
+			}
+			continue
+		}
+		for _, e := range cc.List {
+			v, err := eval(fi, e)
+			if err != nil || !v.IsInt() {
+				errs = append(errs, "ascii_fold_table: a case value is not a rune constant")
+				continue
+			}
+			pending = append(pending, coqZ(v))
+		}
+		if len(cc.Body) == 1 {
+			if b, ok := cc.Body[0].(*ast.BranchStmt); ok && b.Tok == token.FALLTHROUGH {
+				continue
+			}
+		}
+		en := entry{runes: pending, extend: "0"}
+		pending = nil
+		for _, bs := range cc.Body {
+			switch x := bs.(type) {
+			case *ast.AssignStmt:
+				if len(x.Lhs) != 1 || len(x.Rhs) != 1 {
+					errs = append(errs, "ascii_fold_table: unexpected assignment shape")
+					continue
+				}
+				switch l := x.Lhs[0].(type) {
+				case *ast.Ident: // output = output[:(len(output) + K)]
+					se, ok := x.Rhs[0].(*ast.SliceExpr)
+					if l.Name != "output" || !ok || se.High == nil {
+						errs = append(errs, "ascii_fold_table: unexpected statement in a case body")
+						continue
+					}
+					hi := se.High
+					if p, ok := hi.(*ast.ParenExpr); ok {
+						hi = p.X
+					}
+					be, ok := hi.(*ast.BinaryExpr)
+					if !ok || be.Op != token.ADD {
+						errs = append(errs, "ascii_fold_table: extension is not len(output)+K")
+						continue
+					}
+					k, err := eval(fi, be.Y)
+					if err != nil || !k.IsInt() {
+						errs = append(errs, "ascii_fold_table: extension amount is not a constant")
+						continue
+					}
+					en.extend = coqZ(k)
+				case *ast.IndexExpr: // output[outputPos] = 'X'
+					v, err := eval(fi, x.Rhs[0])
+					if err != nil || !v.IsInt() {
+						errs = append(errs, "ascii_fold_table: a written value is not a rune constant")
+						continue
+					}
+					en.writes = append(en.writes, coqZ(v))
+				default:
+					errs = append(errs, "ascii_fold_table: unexpected assignment target")
+				}
+			case *ast.IncDecStmt: // outputPos++
+			default:
+				errs = append(errs, fmt.Sprintf("ascii_fold_table: unexpected statement %T in a case body", bs))
+			}
+		}
+		entries = append(entries, en)
+	}
+	if len(pending) != 0 {
+		errs = append(errs, "ascii_fold_table: trailing fallthrough clauses without a body")
+	}
+	if !sawDefault {
+		errs = append(errs, "ascii_fold_table: no default clause")
+	}
+	var sb strings.Builder
+	sb.WriteString("(* analysis/char/asciifolding.go: the switch of foldToASCII: rune -> (extension of the output slice, runes written) *)\n")
+	sb.WriteString("Definition ascii_fold_table : list (Z * (Z * list Z)) := [\n")
+	first := true
+	n := 0
+	for _, en := range entries {
+		for _, r := range en.runes {
+			if !first {
+				sb.WriteString(";\n")
+			}
+			first = false
+			fmt.Fprintf(&sb, " (%s, (%s, [%s]))", r, en.extend, strings.Join(en.writes, "; "))
+			n++
+		}
+	}
+	sb.WriteString("].\n")
+	if n < 100 {
+		errs = append(errs, fmt.Sprintf("ascii_fold_table: only %d case values found", n))
 	}
 	return area, sb.String(), errs
 }
